@@ -36,6 +36,10 @@ class FileFormat():
         self.fields = dict((f.name, f) for f in schema.fields)
         self.temporal_format_property = temporal_format_property
         self.missing_values = schema.descriptor.get('missingValues', [])
+        # nulls are written as a marker the recorded schema declares as missing
+        self.null_value = self.NULL_VALUE
+        if isinstance(self.NULL_VALUE, str) and self.missing_values and self.NULL_VALUE not in self.missing_values:
+            self.null_value = self.missing_values[0]
 
         # Set fields' serializers
         for field in schema.fields:
@@ -63,7 +67,7 @@ class FileFormat():
 
     def __transform_value(self, value, field):
         if value is None:
-            return self.NULL_VALUE
+            return self.null_value
         # It supports a `tableschema`'s mode of perserving missing values
         # https://github.com/frictionlessdata/tableschema-py#experimental
         if value in self.missing_values:
